@@ -314,6 +314,18 @@ template<class T> static void run_kern3_T(bool isfloat) {
 }
 static void run_kern3() {
 #ifdef FASTOR_SSE2_IMPL
+    { KOp u[] = {{4, false, 2}, {4, true, 0}};
+      kern_line<float>("unary4f", 2, u, 2, [](float* const* p) { Fastor::_transpose<float, 2, 2>(p[0], p[1]); });
+      kern_line<float>("unary4f", 2, u, 2, [](float* const* p) { Fastor::_inverse<float, 2>(p[0], p[1]); });
+      kern_line<double>("unary4d", 2, u, 2, [](double* const* p) { Fastor::_inverse<double, 2>(p[0], p[1]); }); }
+    { KOp t4[] = {{16, false, 0}, {16, true, 0}};
+      kern_line<float>("transpose44f", 4, t4, 2, [](float* const* p) { Fastor::_transpose<float, 4, 4>(p[0], p[1]); }); }
+    { KOp t3[] = {{9, false, 0}, {9, true, 0}};
+      kern_line<double>("transpose33d", 3, t3, 2, [](double* const* p) { Fastor::_transpose<double, 3, 3>(p[0], p[1]); }); }
+    { KOp m2[] = {{4, false, 0}, {4, false, 0}, {4, true, 0}};
+      kern_line<float>("matmul222f", 2, m2, 3, [](float* const* p) { Fastor::_matmul<float, 2, 2, 2>(p[0], p[1], p[2]); }); }
+    { KOp m4[] = {{16, false, 0}, {16, false, 0}, {16, true, 0}};
+      kern_line<float>("matmul444f", 4, m4, 3, [](float* const* p) { Fastor::_matmul<float, 4, 4, 4>(p[0], p[1], p[2]); }); }
     { KOp ops[] = {{9, false, 0}, {9, true, 0}};
       kern_line<float>("transpose33", 3, ops, 2, [](float* const* p) { Fastor::_transpose<float, 3, 3>(p[0], p[1]); }); }
     run_kern3_T<float>(true);
